@@ -2,7 +2,7 @@
 """Generates /verif/MANIFEST.json from the table below (single source of truth)."""
 import json, subprocess, sys
 
-HOOK_COMMITS = ["5f02cf6"]
+HOOK_COMMITS = ["5f02cf6", "372d4f3"]
 
 # id -> (engine, technique, level text, level note, design_ref)
 CHECKS = {
@@ -22,10 +22,10 @@ CHECKS["C15"] = ("vcheck", "proptest message generator + byte mutator driving ra
     "Generated search with shrinking: messages with compressed owners/RDATA of every known type, mutated by truncation, count changes, flips, insertions, injected pointers; up to 30 reader calls per message (read/skip question and RR, peek with owner/skip/parse/drop, mark/rewind, at_eom); after every call the read position, the returned fields and acceptance are compared with the model.",
     "Trusts vmodel::wire/rdata. OPT TTL: raw or RFC 2181-clamped value accepted here (C09/C12 pin it).", "§4 C15")
 CHECKS["C18"] = ("vcheck", "proptest RDATA generators (valid, near-valid, arbitrary) for every known class/type, differential against RFC-derived validators and decoder, write->read round trip in all compression modes",
-    "Generated search with shrinking over three sub-checks: validate acceptance, Rdata::read with cursor/RDLENGTH perturbations against the independent decoder, and Writer->Reader round trip checked by both quandary's reader and the independent decoder.",
+    "Generated search with shrinking over three sub-checks: validate acceptance, Rdata::read with cursor/RDLENGTH perturbations against the independent decoder, and Writer->Reader round trip checked by both quandary's reader and the independent decoder (also in messages beyond 16 KiB whose owner starts 0-48 octets before offset 16384 and shares a suffix with an RDATA name).",
     "Trusts vmodel::rdata (formats transcribed from the RFCs).", "§4 C18")
 CHECKS["C19"] = ("vcheck", "proptest families of related RDATA; all ordered pairs against a reference equality, all triples for transitivity, step-by-step model of RdataSetOwned",
-    "Generated search with shrinking: 2-9 variants of one base RDATA (case flips, junk, truncation, one-octet changes) for every name-bearing type in four classes; reflexivity, symmetry, transitivity, agreement with the reference, and set insertion order/return values.",
+    "Generated search with shrinking: 2-9 variants of one base RDATA (case flips, junk, truncation, one-octet changes incl. exactly the ASCII case bit in fixed fields made of letters) for every name-bearing type in four classes; reflexivity, symmetry, transitivity, agreement with the reference, and set insertion order/return values.",
     "Trusts vmodel::rdata::equal.", "§4 C19")
 
 _W = ("vcheck", "model-based stateful testing: proptest operation sequences over every Writer method, every prefix finished and decoded by an independent decoder and compared with a model message",
@@ -46,15 +46,15 @@ CHECKS["C21"] = ("vcheck", "proptest zone generator biased to delegations/glue/w
     "Generated search with shrinking; issue sets compared exactly (names case-folded), severity of each issue, and Err iff an inspected RDATA is malformed; both glue policies, classes with and without addresses.",
     "Trusts vmodel::zone::validate (Appendix D of DESIGN.md) over the reference lookup.", "§4 C21")
 CHECKS["C22"] = ("vcheck", "model-based stateful testing: proptest insert/remove histories against a reference map, full observation after every step",
-    "Generated search with shrinking over histories (<= 50 ops, nested names incl. root, three classes, all entry kinds); after every step every pool name is looked up (longest suffix) and fetched (exact) in every class and the iteration is compared as a set.",
+    "Generated search with shrinking over histories (<= 50 ops, nested names incl. root, three classes, all entry kinds, re-insertion of the same zone object with new metadata); after every step every pool name is looked up (longest suffix) and fetched (exact) in every class and the iteration is compared as a set.",
     "Trusts vmodel::zone::MCatalog.", "§4 C22")
 
 _S = "Trusts vmodel (wire decoder, Appendix B request scanner, Appendix A resolver) and the harness's own request encoder; RRL is off except in C01."
 CHECKS["C01"] = ("vcheck", "proptest structured requests + byte mutator + raw byte strings over generated catalogs/servers; oracle = no panic (catch_unwind)",
-    "Generated search with shrinking: catalogs incl. malformed RDATA and missing SOA, TSIG key sets, payload sizes 512-65535, RRL on/off, both transports, response buffer of exactly the documented minimum size. The thorough tier adds the libFuzzer target fz_server when built.",
+    "Generated search with shrinking: catalogs incl. malformed RDATA and missing SOA, TSIG key sets, payload sizes 512-65535, RRL on/off, both transports, response buffer of exactly the documented minimum size; a second sub-check builds responses of 16.3-16.5 KiB (TCP) whose first RDATA name after 16 KiB of filler starts at a generated offset around 16383. The thorough tier adds the libFuzzer target fz_server when built.",
     _S, "§4 C01")
 CHECKS["C02"] = ("vcheck", "same generators as C01 (valid RDATA); every response decoded by an independent strict RFC 1035 decoder",
-    "Generated search with shrinking; counts, exact message end, names, RDATA validity of known types, OPT/TSIG placement, QDCOUNT <= 1.",
+    "Generated search with shrinking; counts, exact message end, names, RDATA validity of known types, OPT/TSIG placement, QDCOUNT <= 1; plus the large-response sub-check of C01.",
     _S, "§4 C02")
 CHECKS["C03"] = ("vcheck", "proptest requests + sweep over all header flag/opcode octets; header/question echo rules as an executable predicate",
     "Generated search with shrinking plus a sweep of header octets 2-3 (all 65536 values in the thorough tier, 8192 in quick) x three request shapes.",
@@ -76,15 +76,15 @@ CHECKS["C04"] = ("vcheck", "proptest catalogs with large RRsets/delegations; eac
     "Generated search with shrinking; size limit, TC rules, octet-identity when the complete response fits, sub-multiset relation with all in-bailiwick glue present when only optional data is dropped, TC when the mandatory part does not fit.",
     _S + " Requests without TSIG; TCP SERVFAIL pairs skipped and counted.", "§4 C04")
 CHECKS["C10"] = ("vcheck", "proptest key sets and requests signed by an independent RFC 8945 signer (wrong key/secret/algorithm, truncation, time offsets, tampering); verdict from the request scanner, response MAC recomputed independently, twin comparison with the unsigned request",
-    "Generated search with shrinking; six outcome classes (authenticated, BADSIG, BADKEY, BADTIME, MAC-length FORMERR, FORMERR) counted; the time-window edge is handled by accepting both verdicts when the server's clock reading inside the exchange could fall on either side.",
+    "Generated search with shrinking; six outcome classes (authenticated, BADSIG, BADKEY, BADTIME, MAC-length FORMERR, FORMERR) counted; a second sub-check sizes key name and QNAME (up to 255 octets each) so that the signed response ends within a few octets of the UDP limit; the time-window edge is handled by accepting both verdicts when the server's clock reading inside the exchange could fall on either side.",
     _S + " Wall clock bracketed by readings before/after the call.", "§4 C10")
 CHECKS["C11"] = ("vcheck", "proptest messages signed through the Writer in all three modes; MAC equality with an independent RFC 8945 digest composition; verification differential at fudge boundaries, every truncation length, and single-octet corruption at every position (thorough) judged by a reference verifier",
-    "Generated search with shrinking; evaluations are individual verifications (about 60 per message in quick, every octet position in thorough).",
+    "Generated search with shrinking; evaluations are individual verifications (about 60 per message in quick, every octet position in thorough). Subsequent-mode writers are also reached through into_template / try_from_template_as_tsig_subsequent from writers in each signing mode.",
     "Trusts the hmac/sha1/sha2 crates as primitives (vector-checked); composition is vmodel::tsig.", "§4 C11")
 
 CHECKS["C26"] = ("vcheck", "model-based: proptest histories of (advance g seconds via the verif_hooks time-shift hook, request) against an unbounded-integer token bucket; sent responses compared with an unlimited twin server",
-    "Generated search with shrinking over histories of up to 200 steps with gaps from 0 to 2^32+1 seconds incl. the u32 overflow boundaries of rate x seconds; every step's send/slip/drop verdict checked; slip 0/1 exact, slip >= 2 either.",
-    "Uses the hook Server::verif_rrl_shift_time (feature verif_hooks). Real time also passes: histories taking > 0.5 s are retried; sub-second remainders are carried by the limiter so < 1 s cannot add a refill.", "§4 C26")
+    "Generated search with shrinking over histories of up to 200 steps with gaps from 0 to 2^32+1 seconds incl. the u32 overflow boundaries of rate x seconds; every step's send/slip/drop verdict checked; slip 0/1 exact, slip >= 2 either. A second sub-check advances time in multiples of 250 ms (hook with millisecond resolution) against a reference bucket that carries the sub-second remainder.",
+    "Uses the hook Server::verif_rrl_shift_time (feature verif_hooks). Real time also passes: histories taking > 0.5 s are retried; sub-second remainders are carried by the limiter so < 1 s cannot add a refill. The sub-second sub-check judges only histories that ran in < 200 ms of real time.", "§4 C26")
 CHECKS["C27"] = ("vcheck", "proptest pairs of requests against a fresh limiter with a limit of one per stream; executable stream-key predicate (family, masked prefix, category, effective name incl. wildcard source from the reference resolver)",
     "Generated search with shrinking; pairs are built as near-copies so that exactly one key component differs in most cases (counted in classes); table sizes 1/7/65537 so bucket collisions (which evict and send) are exercised.",
     "32-bit name-hash collisions ignored; pairs taking > 0.5 s retried.", "§4 C27")
@@ -93,7 +93,7 @@ CHECKS["C23"] = ("vcheck", "round-trip against an independent pretty-printer: pr
     "Generated search with shrinking; 25 presentation features counted in classes; line numbers, owners, TTLs, classes, types and RDATA octets compared record by record.",
     "Trusts vmodel::zonefile (printer emits only single-reading text; unit-tested) and RFC 1035 §3.4.2 bit order for WKS (known finding).", "§4 C23")
 CHECKS["C24"] = ("vcheck", "proptest token soups, random bytes and mutated valid zone files; validity predicate over everything the parser yields; watchdog for termination",
-    "Generated search with shrinking; no panic, nothing after the first error, every yielded record valid for its class/type under the independent validators; a case running > 60 s is re-run in a fresh process and reported as non-termination only if it stalls again.",
+    "Generated search with shrinking; no panic, nothing after the first error, every yielded record valid for its class/type under the independent validators (incl. TXT records whose RDATA ends within 3 octets of 65,535); a case running > 60 s is re-run in a fresh process and reported as non-termination only if it stalls again.",
     "Trusts vmodel::rdata::validate.", "§4 C24")
 
 CHECKS["C25"] = ("vcheck", "proptest trees of zone files written to a scratch directory; round-trip against the generating record list with (path, line) plus a metamorphic relation: fs::Parser over the tree = in-memory Parser over the textual flattening",
